@@ -76,8 +76,8 @@ def ensure_model_bins():
     rc, out, _ = sh(f"coqc -Q {COQ} Ctpg {COQ}/Extract/Extract.v", cwd=d, timeout=600)
     if rc: raise Broken("extraction failed: " + out[-2000:])
     for f in os.listdir(VERIF + "/harness/ml"): shutil.copy(VERIF + "/harness/ml/" + f, d)
-    for drv in ("h1_model", "h2_model"):
-        rc, out, _ = sh(f"ocamlfind ocamlopt -w -a model.mli model.ml conv.ml {drv}.ml -o {drv}", cwd=d, timeout=600)
+    for drv in ("h1_model", "h2_model", "h3_model"):
+        rc, out, _ = sh(f"ocamlfind ocamlopt -w -a model.mli model.ml conv.ml h2dump.ml {drv}.ml -o {drv}", cwd=d, timeout=600)
         if rc: raise Broken(f"ocaml build of {drv} failed: " + out[-2000:])
     open(d + "/ok", "w").write("ok")
     return d
@@ -123,6 +123,7 @@ def parse_h1_case(lines):
         l = lines[i]
         if l.startswith("GEN "): c["gen"] = l[4:]
         elif re.match(r"^S\d+:", l): c["states"].append(l.split(":", 1)[1].split())
+        elif re.match(r"^RC\d+:", l): c.setdefault("cellrows", []).append(l.split(":", 1)[1].split())
         elif re.match(r"^R\d+:", l): c["rows"].append([tuple(int(x) for x in e.split(",")) for e in l.split(":", 1)[1].split()])
         elif l.startswith("DIAG "):
             j = i + 1; d = []
@@ -166,7 +167,7 @@ def parse_h2_case(lines):
     return c
 
 # ---------------------------------------------------------------- family runs (cached per header+seed+tier)
-def run_family(name, gen_cmd, real_bin, model_bin, key, extra_model_args=""):
+def run_family(name, gen_cmd, real_bin, model_bin, key, extra_model_args="", second_model_on_real=False):
     d = f"{CACHE}/runs/{name}-{key}"
     if os.path.exists(d + "/done"):
         return d
@@ -175,6 +176,9 @@ def run_family(name, gen_cmd, real_bin, model_bin, key, extra_model_args=""):
     if rc: raise Broken(f"case generation failed for {name}: {out[-1500:]}")
     rc1, out1, t1 = sh(f"{real_bin} {d}/cases > {d}/real.out 2> {d}/real.err", timeout=3000)
     rc2, out2, t2 = sh(f"{model_bin} {d}/cases {extra_model_args} > {d}/model.out 2> {d}/model.err", timeout=3000)
+    if second_model_on_real:
+        rc3, out3, t3 = sh(f"{model_bin} {d}/cases --tables {d}/real.out > {d}/model_rt.out 2> {d}/model_rt.err", timeout=3000)
+        if rc3: raise Broken(f"model driver (on real tables) failed on {name}: " + open(d + "/model_rt.err").read()[-1500:])
     json.dump({"real_rc": rc1, "model_rc": rc2, "real_s": t1, "model_s": t2}, open(d + "/status.json", "w"))
     if rc2: raise Broken(f"model driver failed on {name}: " + open(d + "/model.err").read()[-1500:])
     open(d + "/done", "w").write("ok")
